@@ -66,6 +66,7 @@ func selectorData() []namedNode {
 		{`"abcé"`, nStr("abcé")},
 		{`"é"`, nStr("é")},
 		{`"abcdéf→"`, nStr("abcdéf→")},
+		{`"long-multibyte(48)"`, nStr("ascii-head-0123456789-éèàüöß→日本語-tail-0123456789")},
 		{"bytes()", nBytes([]byte{})},
 		{"bytes(1,2,3)", nBytes([]byte{1, 2, 3})},
 		{"bytes(255)", nBytes([]byte{255})},
